@@ -192,6 +192,35 @@ def run(ctx):
             meta.append({'entry': 'parse (first library call of the process)', 'kind': 'firstcall', 'depth': x['depth'], 'limit': flim})
             ctx.evals()
             ctx.nontrivial(('firstcall', x['depth']))
+    # ---- the first FORMATTING call of a process on deep input: lazily built state must not stay half built -------------
+    def firstfmt(lim, d):
+        cmd = [sys.executable, os.path.join(VERIF, 'vlib', 'deeprun.py'), 'firstformat', str(lim), str(d), REPO]
+        try:
+            p = subprocess.run(cmd, stdout=subprocess.PIPE, stderr=subprocess.PIPE, timeout=120, text=True)
+        except subprocess.TimeoutExpired:
+            return None
+        res = [json.loads(l[2:]) for l in p.stdout.splitlines() if l.startswith('@@')]
+        return res[0] if res else {'kind': 'firstformat', 'depth': d, 'entry': 'format_aligned', 'limit': lim, 'outcome': 'ok',
+                                   'roundtrip': True, 'later': '', 'digest': None, 'exit': p.returncode or 1}
+    flim2 = 250
+    refrun = firstfmt(flim2, 1)
+    if refrun is None or not refrun.get('digest'):
+        raise MachineryError('C15: reference run of the first-format scenario failed')
+    with ThreadPoolExecutor(max_workers=16) as ex:
+        for x in ex.map(lambda d: firstfmt(flim2, d), range(4, 170, 1 if not quick else 1)):
+            if x is None:
+                continue
+            nsub += 1
+            later = x['later']
+            if later == 'ok' and x.get('digest') != refrun['digest']:
+                later = 'differs'
+            outcome = x['outcome']
+            traces.append({'id': len(traces), 'api': 'format_aligned', 'optvalid': True, 'outcome': outcome, 'lexed': True, 'accexc': 0,
+                           'fault': '', 'faulthit': False, 'later': later, 'exit': x.get('exit', 0), 'roundtrip': True})
+            meta.append({'entry': 'format(reindent_aligned) as the first formatting call of the process', 'kind': 'nested subqueries',
+                         'depth': x['depth'], 'limit': flim2})
+            ctx.evals()
+            ctx.nontrivial(('firstformat', x['depth']))
     ctx.cov['subprocesses'] = nsub
     for m in meta[:1] + meta[-2:]:
         ctx.sample(m)
